@@ -179,7 +179,29 @@ def DOCS():
                                               SEL('english'), RAW('\n\\label{q}\n'), W('B')), None)
     d['optarg'] = ('en-GB', '', seq(W('A b '), lambda b: b.fl('german', W('eins zwei'), '[date]'),
                                     W(' c d.')), 2)
+    # a region whose last token is a macro without arguments: the closing language switch
+    # stands where that macro skips the following space
+    d['fl_ends_unknown_macro'] = ('en-GB', '', seq(W('A b '), FL('german', seq(
+        W('eins zwei drei vier fünf '), RAW('\\zz'))), W(' c d.')), None)
+    d['fl_ends_known_macro'] = ('en-GB', '', seq(W('A b '), FL('german', seq(
+        W('eins zwei drei vier fünf '), RAW('\\noindent'))), W(' c d.')), None)
+    d['short_fl_ends_macro'] = ('en-GB', '', seq(W('A b '), FL('german', seq(W('eins '), RAW('\\zz'))),
+                                                 W(' c d.')), None)
+    d['env_ends_fl'] = ('de-DE', '\\usepackage[german]{babel}\n',
+                        seq(W('G '), FL('english', seq(W('e '), ENV('russian', W('Р р р р р')))),
+                            W(' g h.')), None)
+    d['env_star_ends_fl'] = ('de-DE', '\\usepackage[german]{babel}\n',
+                             seq(W('G '), FL('english', seq(W('e '), ENV('russian', W('Р р р р р'), '*'))),
+                                 W(' g h.')), None)
+    d['env_ends_env'] = ('en-GB', '', seq(W('A\n'), ENV('german', seq(W('\nEins zwei drei vier fünf\n'),
+                                          ENV('french', W('un deux trois quatre cinq\n')))),
+                                          W('\nb c.')), None)
+    d['sel_group_ends_macro'] = ('en-GB', '', seq(W('A b '), FL('german', seq(W('eins '), SEL('french'),
+                                                  W('un deux trois quatre '), RAW('\\zz'))), W(' c d.')), None)
     return d
+
+
+GLUE_OK = {'env_ends_fl'}
 
 
 def build_doc(name, main_override=None):
@@ -225,7 +247,12 @@ def judge(name, doc, d, flat, T, single_words, twin=False):
             b.src, miss[:8], dup[:8], [(l, p) for l, p, _c in flat])
     # same words as the single-language run
     words = sorted(w for _l, p, _c in flat for w in p.split() if not _is_ph(w))
-    if words != sorted(w for w in single_words if not _is_ph(w)):
+    sw = sorted(w for w in single_words if not _is_ph(w))
+    if name in GLUE_OK:
+        # the single-language run joins two words (blank eaten behind a region that ends with a
+        # control word: not C12's subject); compare characters instead of words
+        words, sw = sorted(''.join(words)), sorted(''.join(sw))
+    if words != sw:
         return 'C12 %r: words of all parts %r differ from the single-language run %r' % (
             b.src, words, sorted(single_words))
     if ins is not None:
